@@ -591,6 +591,13 @@ func (x *Exec) coveredField(st *State, locs []assignLoc, sty types.Type, field i
 			for _, oc := range x.objectCovers(l.sty, l.ref, sty, ref) {
 				cs = append(cs, And(l.g(), oc))
 			}
+		case "range":
+			// a range of struct elements covers the fields of the element objects in it
+			if l.elemT != nil && isStruct(l.elemT) && structKey(l.elemT) == structKey(sty) {
+				I := x.e.ar.I()
+				idx := App("elemref_idx", I, ref)
+				cs = append(cs, And(l.g(), Eq(App("elemref_reg", I, ref), l.reg), x.e.ar.Cmp(token.LEQ, tInt, l.lo, idx), x.e.ar.Cmp(token.LSS, tInt, idx, l.hi), Eq(ref, x.e.elemRef(l.reg, idx))))
+			}
 		}
 	}
 	return Or(cs...)
@@ -771,7 +778,26 @@ func (x *Exec) havocLoc(st *State, loc assignLoc) {
 		}
 	case "range":
 		if isStruct(loc.elemT) {
-			x.fail("assigns of struct-element ranges unsupported")
+			// elements of a struct slice are the objects elemref(region, index): every field map gets a new
+			// version that agrees with the old one outside those objects
+			sty := loc.elemT.Underlying().(*types.Struct)
+			I := e.ar.I()
+			for fi := 0; fi < sty.NumFields(); fi++ {
+				ft := sty.Field(fi).Type()
+				if isStruct(ft) {
+					x.fail("assigns of ranges of struct elements with nested struct fields unsupported")
+				}
+				for _, l := range e.leaves(ft) {
+					name := fldName(loc.elemT, sty.Field(fi).Name(), l.Name)
+					m := st.heapGet(name, e.fldSort(l.S))
+					nm := st.heapHavoc(name, e.fldSort(l.S))
+					r := Var("$b_rhv", I)
+					idx := App("elemref_idx", I, r)
+					in := And(Eq(App("elemref_reg", I, r), loc.reg), e.ar.Cmp(token.LEQ, tInt, loc.lo, idx), e.ar.Cmp(token.LSS, tInt, idx, loc.hi), Eq(r, e.elemRef(loc.reg, idx)))
+					st.assume(Forall([]*Term{r}, Implies(Not(in), Eq(Select(nm, r), Select(m, r))), Select(nm, r)))
+				}
+			}
+			return
 		}
 		for _, l := range e.leaves(loc.elemT) {
 			name := memName(loc.elemT, l.Name)
